@@ -203,7 +203,7 @@ KNOWN = {
 
 def plan(tier):
     if tier == "quick":
-        return [{"part": "restart", "shards": 16, "budget": {"n_examples": 100}}]
+        return [{"part": "restart", "shards": 16, "budget": {"n_examples": 220}}]
     return [{"part": "restart", "shards": 16, "budget": {"n_examples": 3000}}]
 
 
